@@ -452,6 +452,30 @@ fn check_out_of_range(ctx: &mut Ctx) {
         ctx.count("out-of-range:rust-integer");
         judge_out_of_range(ctx, &name, r, want, &replay);
     }
+    // Rust -> liquid -> Rust: whatever representation is chosen, the integer that comes back must
+    // be the one that went in ("never turned into a different integer")
+    for x in [1u64 << 63, (1u64 << 63) + 1, (1u64 << 63) + 1025, u64::MAX, u64::MAX - 1, u64::MAX - 2047, i64::MAX as u64, 12345] {
+        ctx.count("out-of-range:u64-roundtrip");
+        match guard(|| to_value(&x).ok().map(|v| (dump_view(&v), from_value::<u64>(&v).ok()))) {
+            Ok(None) => ctx.count("out-of-range:rejected"),
+            Ok(Some((_, None))) => ctx.count("out-of-range:roundtrip-rejected"),
+            Ok(Some((d, Some(y)))) => {
+                if y != x {
+                    ctx.violation("serde:integer-roundtrip-changes-value", &format!("u64 {x} -> {d} -> u64 {y}"), replay);
+                }
+            }
+            Err(p) => ctx.violation(&p.key(), &format!("u64 round trip panicked: {}", p.msg), replay),
+        }
+        #[derive(Serialize, Deserialize)]
+        struct W {
+            n: u64,
+        }
+        match guard(|| liquid::to_object(&W { n: x }).ok().map(|o| from_value::<W>(o.as_value()).ok().map(|w| w.n))) {
+            Ok(Some(Some(y))) if y != x => ctx.violation("serde:integer-roundtrip-changes-value", &format!("struct field u64 {x} came back as {y}"), replay),
+            Err(p) => ctx.violation(&p.key(), &format!("struct u64 round trip panicked: {}", p.msg), replay),
+            _ => {}
+        }
+    }
     // in range boundaries must stay integers
     for (name, v, want) in [
         ("i64::MAX", to_value(&i64::MAX), i64::MAX),
